@@ -94,6 +94,7 @@ MODES = {
     "ward+xward-elements": _prof(bus_kinds=dict(KINDS, ward=3, xward=3)),
     "rei-mixed-bus": _prof(),
     "rei-asymmetric-impedance": _prof(branch_kinds={"line": 7, "impedance": 3, "bb": 0}),
+    "rei-integrated-gens": _prof(bus_kinds=dict(KINDS, gen=5)),
     "phase-shift": _prof(level_sets=LEVEL_SETS_2, shifts=(30.0, 150.0, 0.0, -30.0)),
     "detached-boundary": _prof(),
     "trafo3w": _prof(level_sets=LEVEL_SETS_3, trafo3w=True, nb_level=(2, 6)),
@@ -134,7 +135,7 @@ def _tame(recipe, mode, eq_type):
 @st.composite
 def _case(draw, tier, mode=None):
     mode = mode or draw(netgen.weighted(MODE_WEIGHTS))
-    if mode in ("rei-mixed-bus", "rei-asymmetric-impedance"):
+    if mode in ("rei-mixed-bus", "rei-asymmetric-impedance", "rei-integrated-gens"):
         eq_type = "rei"
     elif mode in ("phase-shift", "detached-boundary"):
         eq_type = draw(st.sampled_from(["ward", "xward"]))
@@ -146,6 +147,10 @@ def _case(draw, tier, mode=None):
         for k in ("sgen_separate", "load_separate", "gen_separate"):
             if draw(st.integers(0, 2)):
                 kw[k] = draw(st.booleans())
+        if mode == "rei-integrated-gens":
+            kw["gen_separate"] = False
+        elif kw.get("gen_separate") is False:
+            kw["gen_separate"] = True           # known finding rei/integrated gens at several external buses
     return {"recipe": recipe, "mode": mode, "seed": draw(st.integers(0, 40)), "radius": draw(st.integers(0, 2)),
             "variant": draw(st.sampled_from(["inner", "outer"])), "give": draw(st.sampled_from(["one", "all"])),
             "close": draw(st.sampled_from([True, True, False])), "prune": mode != "detached-boundary",
@@ -305,6 +310,17 @@ def _angle_diff(a, b):
     return abs((a - b + 180.0) % 360.0 - 180.0)
 
 
+# root causes that do not depend on the equivalent type get one signature for all types they apply to
+SCOPE = {"phase-shift-trafo": "ward+xward", "slack-gen-at-boundary": "ward+xward", "fused-boundary-buses-given": "ward+xward",
+         "xward-element-in-external-area/sn_mva!=1": "ward+xward", "impedance-switch-between-boundary-buses": "any",
+         "open-ended-branch-between-internal-and-external-bus": "any"}
+
+
+def _sig(kind, eq_type, f):
+    fact = f[0] if f else "other"
+    return "%s/%s/%s" % (kind, SCOPE.get(fact, eq_type), fact)
+
+
 def facts(net, reg, case, net_eq=None):
     """facts about the input (and the returned equivalent) that name the known root causes, in priority order"""
     eq = case["eq_type"]
@@ -342,6 +358,9 @@ def facts(net, reg, case, net_eq=None):
         if (im.from_bus.isin(E) | im.to_bus.isin(E)).any():
             f.append("asymmetric-impedance-at-external-bus")
     if eq == "rei":
+        if case["kw"].get("gen_separate", True) is False and \
+                len(set(_at(net, "gen", E).bus.values) | set(_at(net, "ext_grid", E).bus.values)) > 1:
+            f.append("gen_separate=False/gens-at-several-external-buses")
         if len(_at(net, "load", E, lambda t: (t.const_z_p_percent != 0) | (t.const_i_p_percent != 0) |
                    (t.const_z_q_percent != 0) | (t.const_i_q_percent != 0))):
             f.append("zip-load-in-external-area")
@@ -457,15 +476,18 @@ def check(case):
             pp.runpp(net_eq, calculate_voltage_angles=True, tolerance_mva=pf_tol(sn), max_iteration=40)
     except Exception as e:
         kind, what = pf_outcome(e)
-        res.fail("eq-pf-failed/%s/%s/%s" % (eq_type, what, f[0] if f else "other"), error=repr(e)[:300], regions=_short(reg))
+        res.fail(_sig("eq-pf-failed/" + what, eq_type, f), error=repr(e)[:300], regions=_short(reg))
         return res
     missing, worst = _compare(net, net_eq, reg)
     if missing:
         res.fail("bus-missing-in-equivalent/" + eq_type, missing=missing, regions=_short(reg))
         return res
-    if 1.0 < worst[0] <= 100.0:
-        # within 100x of the tolerance: the power flows inside get_equivalent stop at 1e-8 / 1e-6 (p.u. mismatch); repeat
-        # with the same power flow function at a tight tolerance before it counts (DESIGN.md sec. 5 rule 5)
+    # the power flows inside get_equivalent stop at a p.u. mismatch of 1e-8 (1e-6 for xward/rei steps), i.e. at sn_mva * 1e-6
+    # MVA: the voltage error this leaves grows with sn_mva / (MVA scale of the network)
+    window = 100.0 * max(1.0, sn / min(netgen.LEVELS[v]["s"] for v in set(net.bus.vn_kv.values)))
+    if 1.0 < worst[0] <= window:
+        # within 100x of the (scaled) tolerance: repeat with the same power flow function at a tight tolerance before it counts
+        # (DESIGN.md sec. 5 rule 5); a deviation that survives is a failure
         def tight(n, **kwargs):
             kwargs["tolerance_mva"] = pf_tol(sn)
             kwargs["max_iteration"] = 100
@@ -484,7 +506,7 @@ def check(case):
             pass
     if worst[0] > 1.0:
         b, dvm, dva = worst[1]
-        res.fail("voltage-differs/%s/%s" % (eq_type, f[0] if f else "other"), bus=b,
+        res.fail(_sig("voltage-differs", eq_type, f), bus=b,
                  where="boundary" if b in reg["boundary"] else "internal", dvm=dvm, dva=dva, facts=f,
                  regions=_short(reg), kw=case["kw"])
     res.nontrivial = bool(has_load and has_gen)
